@@ -355,6 +355,75 @@ V('c13-slaac-stale', 'C13', 'src/iface/slaac.rs',
             }""",
   """            Phase::Discovering | Phase::Start => Some(self.retry_rs_at),""", 'R13.4')
 
+ST = 'src/storage/'
+V('c14-enqueue-many-no-assert', 'C14', ST + 'ring_buffer.rs',
+  """        let (size, result) = f(&mut self.storage[write_at..write_at + max_size]);
+        assert!(size <= max_size);
+        self.length += size;""",
+  """        let (size, result) = f(&mut self.storage[write_at..write_at + max_size]);
+        self.length += size;""", 'R14.1')
+V('c14-get-allocated-no-until-end', 'C14', ST + 'ring_buffer.rs',
+  """        // We can't contiguously dequeue past the end of the storage.
+        let until_end = self.capacity() - start_at;
+        if size > until_end {
+            size = until_end
+        }
+
+        &self.storage[start_at..start_at + size]""",
+  """        &self.storage[start_at..start_at + size]""", 'R14.2')
+V('c14-dequeue-rebase', 'C14', ST + 'ring_buffer.rs',
+  """        self.length -= size;
+        (size, result)
+    }""",
+  """        self.length -= size;
+        if self.length == 0 {
+            self.read_at = 0;
+        }
+        (size, result)
+    }""", 'R14.1b')
+V('c14-infallible-no-rewind', 'C14', ST + 'packet_buffer.rs',
+  """        if self.payload_ring.capacity() < max_size || self.metadata_ring.is_full() {
+            return Err(Full);
+        }
+
+        // Ring is currently empty.  Clear it (resetting `read_at`) to maximize
+        // for contiguous space.
+        if self.payload_ring.is_empty() {
+            self.payload_ring.clear();
+        }
+""",
+  """        if self.payload_ring.capacity() < max_size || self.metadata_ring.is_full() {
+            return Err(Full);
+        }
+""", 'R14.4')
+V('c14-dequeue-with-consumes-on-err', 'C14', ST + 'packet_buffer.rs',
+  """                        Err(err) => (0, Err(err)),""",
+  """                        Err(err) => (metadata.size, Err(err)),""", 'R14.4')
+V('c15-write-before-refusal', 'C15', ST + 'assembler.rs',
+  """            if offset + size < contig.hole_size {
+                // Range also ends within the hole.
+                let new_contig = self.add_contig_at(i)?;""",
+  """            if offset + size < contig.hole_size {
+                // Range also ends within the hole.
+                contig.shrink_hole_by(0);
+                let new_contig = self.add_contig_at(i)?;""", 'R15.1')
+V('c15-add-contig-shift-first', 'C15', ST + 'assembler.rs',
+  """        if self.back().has_data() {
+            return Err(TooManyHolesError);
+        }
+
+        for i in (at + 1..self.contigs.len()).rev() {
+            self.contigs[i] = self.contigs[i - 1];
+        }
+""",
+  """        for i in (at + 1..self.contigs.len()).rev() {
+            self.contigs[i] = self.contigs[i - 1];
+        }
+        if self.contigs[at + 1].has_data() && at + 2 == self.contigs.len() {
+            return Err(TooManyHolesError);
+        }
+""", 'R15.1')
+
 S('silent-tcp-rename-local', ['C17'], T,
   """        let mut ack_of_fin = false;""",
   """        let mut ack_of_fin = false; let _unused_marker = 0u8;""", 'adds an unused local')
